@@ -61,7 +61,8 @@ CHECKS = {
             "prescribes the value (yearly lines, k/n labels, balances) the clause derives it from the transactions and from all fractions of the run, not only from the filtered ComputedData.", "0.3, 0.4, 4.7, 6 C13"),
     "C14": ("model_checking", "Same pipeline for rp2_us and rp2_ie on type-complete inputs (all 14 types) with 1-3 assets sharing sheets: TLC checks (Rp2Docs!TaxReportFails) that the rows of "
             "tax_report_us/ie.ods are, per asset, exactly the computed fractions (bag equality of amount, proceeds, cost, gain, long/short and k/n labels), each on the sheet the property assigns to "
-            "its transaction type, with dates acquired and sold equal to the local dates, proceeds and cost basis following the transactions (pro-rating formulas of Rp2Ledger), and that sheets without rows are absent.", "0.3, 4.7, 6 C14"),
+            "its transaction type, with dates acquired and sold equal to the local dates, proceeds and cost basis following the transactions (pro-rating formulas of Rp2Ledger), and that sheets without rows are absent. The per-sheet row counters shared by the assets are model-checked as a design (MC_TaxSheets, "
+            "a counter restarted per asset refuted as sensitivity control) and its scenarios replayed into rp2.", "0.3, 4.7, 6 C14"),
     "C15": ("model_checking", "Same pipeline for runs without from-date (multi-holder, multi-exchange inputs, every country): TLC checks (Rp2Docs!OpenPositionsFails) the holder rows and (exchange, holder) "
             "rows against the positive computed balances, unrealized cost against the cost of the unconsumed lot parts derived from the computed fractions, realized + unrealized = total acquired cost, "
             "per-unit cost x total balance = unrealized cost, weights as exact shares of the total (rational arithmetic on the lattice), lots consumed = amounts disposed, balances = unsold lot parts.", "0.3, 4.7, 6 C15"),
@@ -75,7 +76,7 @@ CHECKS = {
 }
 
 DOCS_TECH = ("TLA+ spec Rp2Docs (abstract documents over the ledger of Rp2Ledger); TLC-generated histories assembled into multi-asset inputs and run end to end in fresh processes; computed data "
-             "captured in-process, written ODS documents read back and projected; TLC validates every run against the spec (Trace_Docs); generator designs model-checked (MC_RowMap, MC_JpGen)")
+             "captured in-process, written ODS documents read back and projected; TLC validates every run against the spec (Trace_Docs); generator designs model-checked (MC_RowMap, MC_JpGen, MC_TaxSheets)")
 DOCS_NOTE = ("Trusted: the ODS reader and the projection of cells onto the lattice (harness/docsread.py, harness/docs.py; titles and type names translated with the gettext catalogs of the tree under "
              "test), the capture wrapper around rp2_main._find_and_run_report_generators, Python datetime for month/day and date texts, TLC. Computed data is pinned by observation: its own "
              "correctness is the business of C01-C10.")
@@ -115,7 +116,7 @@ def main():
                     {"name": "run", "path": "/verif/harness/run_main.py", "serves_properties": ["C12", "C16", "C17", "C18"],
                      "kind_free_text": "TLC enumeration of option tuples (spec/MC_Run.tla) + end-to-end runs of the entry points in fresh processes + TLC trace validation (spec/Trace_Run.tla)"},
                     {"name": "docs", "path": "/verif/harness/docs_main.py", "serves_properties": ["C13", "C14", "C15", "C19", "C20"],
-                     "kind_free_text": "end-to-end runs on TLC-generated multi-asset inputs + documents read back + TLC trace validation (spec/Trace_Docs.tla over spec/Rp2Docs.tla) + design models MC_RowMap / MC_JpGen"},
+                     "kind_free_text": "end-to-end runs on TLC-generated multi-asset inputs + documents read back + TLC trace validation (spec/Trace_Docs.tla over spec/Rp2Docs.tla) + design models MC_RowMap / MC_JpGen / MC_TaxSheets"},
                     {"name": "ledger", "path": "/verif/harness/ledger_main.py", "serves_properties": sorted(p for p in CHECKS if p not in ENGINE_OF),
                      "kind_free_text": "TLC model checking of spec/MC_Ledger.tla + TLC-generated histories (spec/Gen_Hist.tla) run on the real rp2 + TLC trace validation (spec/Trace_Ledger.tla)"}],
         "checks": checks,
